@@ -25,7 +25,7 @@ const (
 )
 
 var c08Tris = []string{"excludesSpecialPaths", "planOrBypassOnSubGroups", "planShape", "scanEqCanonical",
-	"bucketPagingAfterFilter", "scanPagingAfterFilter", "labelReattach", "bucketChecksAttr",
+	"bucketPagingAfterFilter", "scanPagingAfterFilter", "labelReattach", "pagedQueriesBypass", "bucketChecksAttr",
 	"lookupInDedupes", "unionDedupes", "bucketWindowTimeOnly", "execPreconditions", "extractorsStandard", "canonStandard", "scanLeafStandard"}
 
 var c08OpNames = map[string][2]string{ // proto name → (Lean constructor, show)
@@ -78,6 +78,7 @@ func c08Hint(fs *Facts, f *File) {
 	if fd == nil {
 		return
 	}
+	c07Canon(fd, []string{"f", "path", "v", "ok", "vals", "i", "s", "vals", "i", "n", "vals", "i", "n"})
 	where := c08At(c08Planner, f, fd)
 	var sw *ast.SwitchStmt
 	for _, st := range fd.Body.List {
@@ -145,6 +146,9 @@ func c08Plan(fs *Facts, f *File) {
 	if or == nil || and == nil || pf == nil {
 		return
 	}
+	c07Canon(or, []string{"group", "hints", "leg", "hint", "ok"})
+	c07Canon(and, []string{"group", "i", "leg", "hint", "ok", "i", "sub", "subPlan"})
+	c07Canon(pf, []string{"group", "logic"})
 	if first, ok := or.Body.List[0].(*ast.IfStmt); ok {
 		cond := f.Str(first.Cond)
 		ret := f.Str(first.Body) == "{ return Plan{Mode: PlanModeBypass} }"
@@ -171,24 +175,37 @@ func c08Stream(fs *Facts, f *File) {
 	if fd == nil {
 		return
 	}
+	c07Canon(fd, []string{"g", "in", "stream", "swampName", "err", "hydraInterface", "swampInterface", "fromTime", "toTime", "beaconType",
+		"order", "filters", "plan", "treasures", "residualFilters", "candidates", "err", "maxResults", "includeMap", "excludeMap",
+		"needsMeta", "matchCount", "treasureInterface", "key", "included", "excluded", "matched", "meta", "resp", "t", "err"})
 	where := c08At(c08Gateway, f, fd)
 	src := f.Str(fd.Body)
-	branch := "if plan.Mode != PlanModeBypass && bucketExecPreconditions(beaconType) { candidates := collectBucketCandidates(swampInterface, plan.Hints) candidates = applyTimeRange(candidates, beaconType, fromTime, toTime) sortCandidates(candidates, beaconType, order) treasures = applyFromLimit(candidates, in.GetFrom(), in.GetLimit()) residualFilters = plan.Residual } else {"
+	steps := "candidates := collectBucketCandidates(swampInterface, plan.Hints) candidates = applyTimeRange(candidates, beaconType, fromTime, toTime) sortCandidates(candidates, beaconType, order) treasures = applyFromLimit(candidates, in.GetFrom(), in.GetLimit()) residualFilters = plan.Residual"
+	gateOld := "if plan.Mode != PlanModeBypass && bucketExecPreconditions(beaconType) { "
+	gateNew := "if plan.Mode != PlanModeBypass && bucketExecPreconditions(beaconType) && in.GetFrom() == 0 && in.GetLimit() == 0 { "
+	relabel := " if hasAnyLabels(filters) { residualFilters = filters }"
 	scan := "treasures, err = swampInterface.GetTreasuresByBeacon( beaconType, order, in.GetFrom(), in.GetLimit(), fromTime, toTime)"
 	if !strings.Contains(src, "plan := PlanFilter(filters)") {
 		return
 	}
-	if strings.Contains(src, branch) {
+	gated := strings.Contains(src, gateNew+steps)
+	if gated || strings.Contains(src, gateOld+steps) {
 		fs.Tri("bucketPagingAfterFilter", No, where)
+		fs.Tri("pagedQueriesBypass", TriOf(gated), where)
 		fs.Tri("bucketChecksAttr", No, where) // refined by c08ExecFacts
 	}
-	if strings.Contains(src, scan) && strings.Contains(src, "residualFilters = filters") {
+	if strings.Contains(src, scan) && strings.Contains(src, "residualFilters = filters } maxResults") {
 		fs.Tri("scanPagingAfterFilter", No, where)
 	}
 	if strings.Contains(src, "needsMeta := hasAnyLabels(residualFilters)") &&
 		strings.Contains(src, "matched, meta = evaluateNativeFilterGroupWithMeta(treasureInterface, residualFilters)") &&
 		!strings.Contains(src, "plan.Hints[") && strings.Count(src, "MatchedLabels") == 1 {
-		fs.Tri("labelReattach", No, where)
+		switch {
+		case strings.Contains(src, steps+relabel+" } else {"):
+			fs.Tri("labelReattach", Yes, where)
+		case strings.Contains(src, steps+" } else {"):
+			fs.Tri("labelReattach", No, where)
+		}
 	}
 }
 
@@ -198,6 +215,10 @@ func c08ExecFacts(fs *Facts, f *File) {
 		fs.Tri("execPreconditions", Yes, c08At(c08Exec, f, pre))
 	}
 	col := f.Func("", "collectBucketCandidates")
+	c07Canon(col, []string{"sw", "hints", "h", "seen", "out", "h", "hits", "t", "k", "dup"})
+	c07Canon(f.Func("", "applyTimeRange"), []string{"candidates", "beaconType", "fromTime", "toTime", "fromNs", "toNs", "out", "t", "ts"})
+	c07Canon(f.Func("", "beaconTimeOf"), []string{"t", "beaconType"})
+	c07Canon(pre, []string{"beaconType"})
 	if col != nil {
 		src := f.Str(col.Body)
 		if strings.Contains(src, "if len(hints) == 1 {") && strings.Contains(src, "return sw.LookupByBucketEqual(h.FieldPath, h.Values[0])") &&
@@ -209,21 +230,33 @@ func c08ExecFacts(fs *Facts, f *File) {
 			}
 		}
 	}
-	// attribute check: the time-range step passes everything through when there is no window, and
-	// nothing else looks at the timestamp
+	// applyTimeRange: which candidates it lets through without looking at a window, and whether it
+	// drops candidates without the timestamp
 	tr := f.Func("", "applyTimeRange")
 	sc := f.Func("", "sortCandidates")
-	if tr != nil && sc != nil {
-		ok := f.Contains(tr.Body, "if fromTime == nil && toTime == nil { return candidates }") &&
-			f.Contains(tr.Body, "if fromTime != nil && ts < fromNs { continue } if toTime != nil && ts >= toNs { continue }") &&
-			!strings.Contains(f.Str(tr.Body), "== 0") && !strings.Contains(f.Str(sc.Body), "== 0")
-		if !ok {
-			fs.Tri("bucketChecksAttr", Unknown, c08At(c08Exec, f, tr))
-		}
-		// the window step runs for every beacon type; beaconTimeOf answers 0 for the key index
-		bt := f.Func("", "beaconTimeOf")
-		if ok && bt != nil && !strings.Contains(f.Str(tr.Body), "BeaconTypeKey") && strings.HasSuffix(f.Str(bt.Body), "} return 0 }") {
-			fs.Tri("bucketWindowTimeOnly", No, c08At(c08Exec, f, tr))
+	bt := f.Func("", "beaconTimeOf")
+	if tr != nil && sc != nil && bt != nil && strings.HasSuffix(f.Str(bt.Body), "} return 0 }") && !strings.Contains(f.Str(sc.Body), "== 0") {
+		src := f.Str(tr.Body)
+		loop := strings.Contains(src, "if fromTime != nil && ts < fromNs { continue } if toTime != nil && ts >= toNs { continue }")
+		where := c08At(c08Exec, f, tr)
+		switch {
+		case loop && strings.HasPrefix(src, "{ if fromTime == nil && toTime == nil { return candidates } var fromNs") && !strings.Contains(src, "ts == 0"):
+			// old shape: no window → everything; window → every beacon type, the key index with timestamp 0
+			fs.Tri("bucketChecksAttr", No, where)
+			fs.Tri("bucketWindowTimeOnly", No, where)
+		case loop && strings.HasPrefix(src, "{ if beaconType == hydra.BeaconTypeKey { return candidates } var fromNs") &&
+			strings.Contains(src, "ts := beaconTimeOf(t, beaconType) if ts == 0 { continue }"):
+			fs.Tri("bucketChecksAttr", Yes, where)
+			fs.Tri("bucketWindowTimeOnly", Yes, where)
+		case loop && strings.HasPrefix(src, "{ if (fromTime == nil && toTime == nil) || beaconType == hydra.BeaconTypeKey { return candidates } var fromNs") && !strings.Contains(src, "ts == 0"):
+			fs.Tri("bucketChecksAttr", No, where)
+			fs.Tri("bucketWindowTimeOnly", Yes, where)
+		case loop && strings.HasPrefix(src, "{ var fromNs") && strings.Contains(src, "ts := beaconTimeOf(t, beaconType) if ts == 0 { continue }"):
+			// zero check for every beacon type would also empty key-ordered queries: not a modelled shape
+			fs.Tri("bucketChecksAttr", Unknown, where)
+		default:
+			fs.Tri("bucketChecksAttr", Unknown, where)
+			fs.Tri("bucketWindowTimeOnly", Unknown, where)
 		}
 	}
 }
@@ -233,6 +266,8 @@ func c08Scan(fs *Facts, f *File) {
 	if fd == nil {
 		return
 	}
+	c07Canon(fd, []string{"decoded", "filter", "op", "fieldVal", "ams", "ok", "isEmpty", "s", "ok", "mapVal", "ok", "cv", "exists", "cv",
+		"v", "ok", "v", "ok", "v", "ok", "v", "ok", "v", "ok", "v", "ok", "v", "ok", "v", "ok", "v", "ok", "v", "ok", "v", "ok", "v", "ok", "ref"})
 	where := c08At(c08Native, f, fd)
 	src := f.Str(fd.Body)
 	std := strings.Contains(src, "fieldVal := extractFieldByPath(decoded, *filter.BytesFieldPath)") &&
@@ -256,6 +291,7 @@ func c08BucketFacts(fs *Facts, f *File) {
 	if fd == nil {
 		return
 	}
+	c07Canon(fd, []string{"b", "values", "seen", "out", "v", "want", "t", "k", "dup"})
 	src := f.Str(fd.Body)
 	if strings.Contains(src, "for _, t := range collectMatchingLocked(b, want) {") {
 		if strings.Contains(src, "if _, dup := seen[k]; dup { continue } seen[k] = struct{}{} out = append(out, t)") {
@@ -294,7 +330,18 @@ func c08Shapes(fs *Facts) {
 		ll := fc.Func("", "toFloat64Lossless")
 		if eq != nil && cn != nil && ll != nil {
 			es, cs := fc.Str(eq.Body), fc.Str(cn.Body)
-			ok := strings.Contains(es, "if a.Kind == KindInt64 && b.Kind == KindUint64 { return a.I >= 0 && uint64(a.I) == b.U }") &&
+			c07Canon(eq, []string{"a", "b", "af", "ok", "bf"})
+			es = fc.Str(eq.Body)
+			same := true
+			for _, c := range []string{"case KindNull: return true", "case KindBool: return a.B == b.B", "case KindInt64: return a.I == b.I",
+				"case KindUint64: return a.U == b.U", "case KindFloat64: return a.F == b.F", "case KindString: return a.S == b.S"} {
+				same = same && strings.Contains(es, c)
+			}
+			ok := same && strings.HasPrefix(es, "{ if a.Kind == b.Kind { switch a.Kind {") &&
+				strings.Contains(es, "if a.Kind == KindInt64 && b.Kind == KindUint64 { return a.I >= 0 && uint64(a.I) == b.U }") &&
+				strings.Contains(es, "if a.Kind == KindUint64 && b.Kind == KindInt64 { return b.I >= 0 && uint64(b.I) == a.U }") &&
+				strings.Contains(es, "bf, ok := toFloat64Lossless(b) if !ok { return false } return af == bf") &&
+				strings.Contains(fc.Str(ll.Body), "f := float64(k.U) if uint64(f) != k.U { return 0, false }") &&
 				strings.Contains(es, "if a.Kind == KindFloat64 || b.Kind == KindFloat64 { af, ok := toFloat64Lossless(a)") &&
 				strings.Contains(es, "if !isNumeric(a.Kind) || !isNumeric(b.Kind) { return false }") &&
 				strings.Contains(cs, "case time.Time: return Key{Kind: KindInt64, I: n.UTC().Unix()}") &&
